@@ -7,6 +7,18 @@ rnd = sys.argv[2] if len(sys.argv) > 2 else '1'
 props = {json.loads(l)['id']: json.loads(l) for l in open('/verif/properties.jsonl')}
 EXTRA = {
  '1': '',
+ '3': ('\nThis is a THIRD round: earlier volunteers already tried dropping or weakening single guards, dropping keyword '
+       'arguments, swapping attributes, moving logic into helpers with a wrong corner case, caching/memoising, early exits and '
+       'fast paths, and changed loop bounds.  Look somewhere else: (a) Python-semantics pitfalls -- `or`-defaults on falsy '
+       'values, `is` vs `==`, bool/int confusion, truthiness of empty tokens/groups, slice bounds with negative numbers, '
+       'generator exhaustion / iterating twice, dict or set ordering, str-subclass methods returning plain str, '
+       '`__eq__`/`__hash__`/`__contains__` interplay, mutable defaults, closures capturing loop variables, exception types '
+       'caught too broadly or too narrowly; (b) the data tables and constants (category codes, token-kind enums, signature and '
+       'delimiter tables, name sets) and the decorators/helpers in utils.py, category.py, tex.py and TexSoup/__init__.py; (c) '
+       'the order in which rules, branches or table entries are consulted; (d) two or three cooperating edits across modules.  '
+       'Produce THREE changes (A, B and C) instead of two, in {out}/A, {out}/B, {out}/C.  IMPORTANT: never use `git stash` '
+       '(the stash is shared between all worktrees of this repository); to test against the pristine tree use '
+       '`git -C <worktree> diff > saved.diff; git -C <worktree> checkout -- .` and re-apply with `git apply`.\n'),
  '2': ('\nThis is a second round: earlier volunteers already tried the most obvious ideas (dropping a single guard, dropping a '
        'keyword argument of one call, swapping one attribute for a similarly named one).  Look for LESS obvious ways: a '
        'refactoring that moves logic into a new helper and gets a corner wrong, an "optimisation" or caching step, a change in a '
